@@ -914,7 +914,7 @@ impl H {
         let r = guard(|| {
             queries::run_loop(q, mac, w, &mut |v: Visit, wref: Option<&VW>| {
                 let step = match mac {
-                    Mac::IterDestroy => *decide.get(&v.tok).unwrap_or(&default),
+                    Mac::IterDestroy if !reg::with(|r| r.plain_step) => *decide.get(&v.tok).unwrap_or(&default),
                     _ => match *decide.get(&v.tok).unwrap_or(&default) { Step::Break | Step::BreakDestroy => Step::Break, _ => Step::Continue },
                 };
                 let mut o = vec![
@@ -936,6 +936,7 @@ impl H {
             })
         });
         reg::clear_faults();
+        reg::with(|r| r.plain_step = false);
         for d in minted.iter().rev().take(6) { self.remember_direct(wi, *d); }
         self.emit(vec![
             ("op", J::s("loop")), ("w", ji(wi)), ("q", ji(q)),
